@@ -610,6 +610,31 @@ impl Sweep for Vm {
                 self.judge(&line, op.site(), exp, ctx);
             }
         }
+        // NEXT adds the step to an Integer counter: same 16-bit rule as +
+        for &b in &self.b {
+            for s in [1i64, -1, 2, -2, 255, 2000, -2000, 16384, 32767, -32768] {
+                let mut i = x;
+                let mut count = 0i64;
+                let exp = loop {
+                    count += 1;
+                    if count > 6 {
+                        break None;
+                    }
+                    let i2 = i + s;
+                    if i2 < -32768 || i2 > 32767 {
+                        break Some(Exp::Overflow);
+                    }
+                    i = i2;
+                    if (s >= 0 && i > b as i64) || (s < 0 && i < b as i64) {
+                        break Some(fit(count));
+                    }
+                };
+                if let Some(exp) = exp {
+                    let line = format!("C%=0:FOR I%={} TO {} STEP {}:C%=C%+1:NEXT:PRINT C%", lit(a), lit(b), lit(s as i16));
+                    self.judge(&line, "for-next-counter", exp, ctx);
+                }
+            }
+        }
         // float to Integer by assignment
         if shard == 0 {
             for (text, v) in [
@@ -646,7 +671,7 @@ impl Check for C08 {
     fn meta(&self, tier: Tier) -> Meta {
         Meta {
             bound: match tier {
-                Tier::Quick => "unary: all 65536 Integers x {negate, ABS, INT, FIX, CINT, SGN}; binary {+,-,*,\\,MOD,^}: every row and column through each of the boundary values (one operand exhaustive over all 65536); float->Integer: +-2000 ulp around each conversion limit in f32 and f64 and specials (NaN, inf) through CINT, TryFrom, \\ and AND; 15x15 boundary pairs x 6 operators through the whole interpreter".into(),
+                Tier::Quick => "unary: all 65536 Integers x {negate, ABS, INT, FIX, CINT, SGN}; binary {+,-,*,\\,MOD,^}: every row and column through each of the boundary values (one operand exhaustive over all 65536); float->Integer: +-2000 ulp around each conversion limit in f32 and f64 and specials (NaN, inf) through CINT, TryFrom, \\ and AND; 15x15 boundary pairs x 6 operators through the whole interpreter, and FOR I%=a TO b STEP s .. NEXT for the same pairs x 10 steps (the counter update is an Integer addition)".into(),
                 Tier::Thorough => "as quick, plus ALL 2^32 operand pairs for each of + - * \\ MOD, every base x exponents 0..20 for ^, ALL 2^32 f32 bit patterns through CINT, +-200000 ulp neighbourhoods, and all boundary pairs through the interpreter".into(),
             },
             rule: "cases are (operator, operand tuple); enumerated exhaustively in index order; distinct_nontrivial counts distinct (operator group, expected outcome) pairs where the outcome is the exact Integer result, OVERFLOW or DIVISION BY ZERO".into(),
